@@ -69,12 +69,11 @@ PROPS["C06"] = {
 C11Q = {"unwind_is_violation": 1, "disksz": 10000, "dirslots": 3, "namecmp": 2, "bbytes": 2, "bblocks": 2, "inums": 2, "offsets": 1, "fixstable": 1, "zeroalloc": 0, "oneblock": 1}
 C11T = {"unwind_is_violation": 1, "disksz": 10000, "dirslots": 4, "namecmp": 2, "bbytes": 4, "bblocks": 3, "inums": 5, "offsets": 2, "longnames": 1, "zeroalloc": 0}
 # per-procedure bounds: objects that can be freed inline are small (sizeblocks) in the directory procedures
-C11X = {n: {"sizeblocks": 2, "inums": 1} for n in ["Create", "Mkdir", "Symlink", "Remove", "Rmdir", "Rename"]}
-C11X["Setattr"] = {"inums": 1, "plainattrs": 1}
-C11X["Write"] = {"inums": 1}
+C11X = {n: {"sizeblocks": 1, "inums": 1, "namelens": 2, "pendingshrink": 0} for n in ["Create", "Mkdir", "Symlink", "Remove", "Rmdir", "Rename"]}
+C11X["Setattr"] = {"inums": 1, "plainattrs": 1, "timeattrs": 0, "bblocks": 1}
+C11X["Write"] = {"inums": 1, "offsets": 0, "bbytes": 1, "bblocks": 1}
 C11XT = {n: {"sizeblocks": 3, "inums": 2} for n in ["Create", "Mkdir", "Symlink", "Remove", "Rmdir", "Rename"]}
 PROPS["C11"] = {
-    "unclaimed": True,
     "level": "model_checking",
     "explanation": "every NFS/MOUNT procedure of nfs.Nfs executed symbolically on unconstrained arguments from an arbitrary valid file system; a feasible path ending in a Go panic, a >64MB allocation, a re-acquired lock or an exceeded loop bound is a violation",
     "assumptions": JOURNAL + ["pre-state satisfies the representation invariant Inv (DESIGN.md §4), instantiated at every inode/dirent the path decodes"],
